@@ -137,11 +137,18 @@ def r1_schema(ctx, repo, cname):
         ctx.holds("R1", C, where(mod, prod_loop), "objective i is a product over j in [0, m-i-1)", key="product-range")
     # complement guard i > 0
     t = comp_if.test
-    g_ok = isinstance(t, ast.Compare) and access_path(t.left) == iv and ((isinstance(t.ops[0], ast.Gt) and text(t.comparators[0]) == "0") or
-                                                                         (isinstance(t.ops[0], ast.GtE) and text(t.comparators[0]) == "1") or
-                                                                         (isinstance(t.ops[0], ast.NotEq) and text(t.comparators[0]) == "0"))
-    if not g_ok:
-        ctx.violated("R1", C, where(mod, comp_if), "the complement factor is applied under `%s`, expected for every objective but the first (i > 0)" % text(t), key="complement-guard")
+    # the guard as a predicate of the objective number: false for objective 0, true for 1, 2, ... (however it is spelt)
+    from ..astutil import ceval, NotEvaluable
+    try:
+        truth = [bool(ceval(t, {iv: k_})) for k_ in range(0, 8)]
+        g_ok = truth == [False] + [True] * 7
+    except NotEvaluable:
+        g_ok = None
+    if g_ok is False:
+        ctx.violated("R1", C, where(mod, comp_if), "the complement factor is applied under `%s` (objectives %s), expected for every objective but the first (i > 0)"
+                     % (text(t), [k_ for k_, v_ in enumerate(truth) if v_]), key="complement-guard")
+    elif g_ok is None:
+        ctx.inconclusive("R1", C, where(mod, comp_if), "the guard `%s` of the complement factor is not a predicate of the objective number alone" % text(t), key="complement-guard")
     Cf = [xp(mult_factor(b, acc), b) for b in prod_loop.body if mult_factor(b, acc) is not None]
     Sf = [xp(mult_factor(b, acc), b) for b in comp_if.body if mult_factor(b, acc) is not None]
     if len(Cf) != 1 or len(Sf) != 1:
